@@ -300,6 +300,13 @@ fn build(tier: Tier) -> Vec<Case> {
                             });
                         }
                     }
+                    // the same settings arriving through their serde form (a configuration file): same bounds
+                    if *r == 0 && !v6 {
+                        v.push(Case {
+                            label: format!("{} 127.0.0.1 silent after 0 replies, read timeout {ms} ms, write/connect 30 s, settings deserialised from JSON", e.name),
+                            what: What::Silence { entry: ei, k: 0, v6, ms: *ms, retries: 0, variant: 5 },
+                        });
+                    }
                     if e.tcp {
                         v.push(Case {
                             label: format!("{} {} half a reply then silence on an open connection, timeout {ms} ms, retries {r}", e.name, if v6 { "::1" } else { "127.0.0.1" }),
@@ -345,7 +352,7 @@ fn ts(ms: u64, retries: usize) -> Option<TimeoutSettings> {
 }
 
 /// Read timeout `ms`; write and connect timeouts far larger (variant 1), both absent (variant 2), only the write timeout
-/// absent (3) or only the connect timeout absent (4): a blocking receive must be bounded by the READ timeout alone.
+/// absent (3) or only the connect timeout absent (4), or variant 1's values deserialised from JSON (5): a blocking receive must be bounded by the READ timeout alone.
 fn ts_variant(ms: u64, retries: usize, variant: u8) -> Option<TimeoutSettings> {
     let d = Some(Duration::from_millis(ms));
     match variant {
@@ -353,6 +360,15 @@ fn ts_variant(ms: u64, retries: usize, variant: u8) -> Option<TimeoutSettings> {
         1 => TimeoutSettings::new(d, Some(Duration::from_secs(30)), Some(Duration::from_secs(30)), retries).ok(),
         2 => TimeoutSettings::new(d, None, None, retries).ok(),
         3 => TimeoutSettings::new(d, None, d, retries).ok(),
+        5 => {
+            serde_json::from_value::<TimeoutSettings>(serde_json::json!({
+                "read": {"secs": ms / 1000, "nanos": (ms % 1000) * 1_000_000},
+                "write": {"secs": 30, "nanos": 0},
+                "connect": {"secs": 30, "nanos": 0},
+                "retries": retries,
+            }))
+            .ok()
+        }
         _ => TimeoutSettings::new(d, d, None, retries).ok(),
     }
 }
@@ -373,7 +389,7 @@ impl Prop for C12 {
         "full matrix on real loopback sockets: entry point {valve (challenge + 3 requests, split lists), gamespy3 (handshake + \
          data), unreal2 (trailing receives), quake3, bedrock, java (TCP), legacy 1.6 (TCP)} x silence point {before the first \
          reply, after each reply, never} + {TCP connection refused / UDP port closed} x {127.0.0.1, ::1} x read/write/connect \
-         timeout {150 ms (quick); 150, 400 ms (thorough)} x retries {0, 1 (quick); 0, 1, 2}; plus, for TCP, half a reply followed by silence on an open connection; eco over HTTP (accept-then-hold, \
+         timeout {150 ms (quick); 150, 400 ms (thorough)} x retries {0, 1 (quick); 0, 1, 2}; plus the same settings deserialised from their JSON form; plus, for TCP, half a reply followed by silence on an open connection; eco over HTTP (accept-then-hold, \
          refused) and the master server (silent). The loopback servers are driven by the same reference models. Oracle: the \
          outcome class equals the outcome of the deterministic twin run under the virtual network with the same silence point \
          ; the call returns within N x timeout + 1.5 s, where N is read off the FAULT-FREE exchange (its natural timeouts + one that may end a greedy list + retries + 1 for the unit that meets the silence), not off the implementation's behaviour under the fault; over UDP the server must receive no more than (requests before the silence + retries x requests an attempt sends before its first receive) datagrams (hard watchdog at \
